@@ -14,6 +14,9 @@ from cell_type_mapper.marker_selection.marker_array_utils import (
     thin_marker_gene_array_by_gene)
 
 
+import cell_type_mapper.utils.verif_hooks as verif_hooks
+
+
 def select_marker_genes_v2(
         marker_gene_array,
         query_gene_names,
@@ -166,6 +169,15 @@ def _run_selection(
     marker_gene_idx_set = set()
     marker_gene_name_list = []  # in order they were chosen
 
+    if verif_hooks.on():
+        verif_hooks.emit(
+            'SelStart',
+            parent=parent_node,
+            n_per_utility=int(n_per_utility),
+            genes_at_a_time=int(genes_at_a_time),
+            taxonomy_idx=taxonomy_idx_array,
+            n_genes=int(marker_gene_array.n_genes))
+
     # tally how many markers are chosen for each taxonomy pair
     # (the 2 columns are for up/down distinctions)
 
@@ -197,6 +209,9 @@ def _run_selection(
              taxonomy_idx_array=taxonomy_idx_array)
 
     filled_sum = been_filled.sum()
+
+    if verif_hooks.on():
+        verif_hooks.emit('SelFilled', filled=been_filled)
 
     (marker_gene_idx_set,
      marker_gene_name_list,
@@ -235,6 +250,9 @@ def _run_selection(
         # set was set to zero at the beginning, this ought to indicate that
         # none of the genes left have any utility in the taxonomy pairs
         # we care about
+        if verif_hooks.on():
+            verif_hooks.emit('SelFilled', filled=been_filled)
+
         if utility_array.max() <= 0:
             break
 
@@ -344,6 +362,10 @@ def _choose_one_gene(
         sorted_utility_idx.pop(to_pop)
 
     marker_gene_name_list.append(marker_gene_array.gene_names[chosen_idx])
+
+    if verif_hooks.on():
+        verif_hooks.emit('SelChose', idx=int(chosen_idx),
+                         gene=marker_gene_array.gene_names[chosen_idx])
 
     if chosen_idx in marker_gene_idx_set:
         raise RuntimeError(
